@@ -544,6 +544,12 @@ def H4b_journal_tables(ctx):
             dir_ok = False
         if v == 'BalanceChange' and o == 'set' and d.get('address') != 'Eq':
             dir_ok = False
+        # the converse: an entry that moved the account's balance IS undone (no further condition)
+        if o is None:
+            if (v == 'BalanceTransfer' and ((d.get('from') == 'Eq' and d.get('to') == 'Ne') or (d.get('to') == 'Eq' and d.get('from') == 'Ne'))) or \
+                    (v == 'AccountDestroyed' and (d.get('address') == 'Eq' or (d.get('target') == 'Eq' and d.get('address') == 'Ne'))) or \
+                    (v == 'BalanceChange' and d.get('address') == 'Eq'):
+                dir_ok = False
     ctx.ob('H4', bb, 'journal-undo-table', got_ops == exp_ops and dir_ok, f'ops {sorted(map(str, got_ops))} direction-ok={dir_ok} rows={sorted(map(str, rows))}', site=bb.loc(bb.b['lo']),
            what='undoing the surviving journal: a transfer/destroy OUT of the account adds the amount back, one INTO it subtracts it, a BalanceChange restores old_balance; a swapped direction inflates or deflates the protected pre-debit balance')
     r = ctx.fn('delegated_safety::reserve::is_root_value_transfer')
@@ -606,6 +612,20 @@ def H4b_journal_tables(ctx):
                 if bf and bf[0][0] == 'call' and bf[0][1].endswith('::is_zero') and je_fields(bf[0]):
                     guards.add(('zero' if bf[1] else 'nonzero') + ':' + ','.join(je_fields(bf[0])))
             src.add((variant, tuple(sorted(guards)), took))
+    # the converse: a debit whose source was found delegated IS recorded (under no further condition)
+    unrec = 0
+    n_deleg = 0
+    for p in live(f.paths(max_visits=2)):
+        for i, a in enumerate(p.events):
+            if a.kind != 'atom':
+                continue
+            bf = bool_fact(a)
+            if bf and bf[1] is True and term_calls(bf[0], 'is_eip7702'):
+                n_deleg += 1
+                if not [x for x in p.events[i + 1:i + 10] if x.kind == 'call' and norm_callee(x.d['callee']).endswith('::or_insert')]:
+                    unrec += 1
+    ctx.ob('H4', f, 'delegated-debit-always-recorded', n_deleg >= 1 and unrec == 0, f'delegated sources decided on paths={n_deleg}, not recorded={unrec}', site=f.loc(f.b['lo']),
+           what='every surviving debit out of an account whose code is an EIP-7702 designator becomes a reserve candidate')
     exp = {('BalanceTransfer', ('Ne:from,to', 'nonzero:balance'), ('from',)), ('AccountDestroyed', ('nonzero:had_balance',), ('address',))}
     ctx.ob('H4', f, 'debit-source-conditions', src == exp, f'{sorted(map(str, src))}'[:400], site=f.loc(f.b['lo']),
            what='a debit is a non-zero BalanceTransfer with from ≠ to (source = from) or an AccountDestroyed with non-zero had_balance (source = the destroyed address)')
